@@ -8,7 +8,19 @@
    [VUuid w n] for UUID(md5("<w>:uuid:<n>")), [VTime b n] for (b-th clock reading) + n seconds,
    [VInv i] for the i-th invocation ever launched through the helper.  The hash functions are
    therefore an uninterpreted (free) oracle: every equality proved between symbolic values holds
-   for every interpretation; provenance (which workflow a value was derived for) stays visible. *)
+   for every interpretation; provenance (which workflow a value was derived for) stays visible.
+
+   Two further source facts are modelled through a side state that the theorems never look at:
+   * c_replay_uncond: execute_task hands the recorded invocation back unconditionally.  When the
+     replay branch is guarded (the source consults the state of the recorded invocation), an
+     [EChild w call] event — the invocation recorded for (w, call) reaches a state the guard does not
+     accept (it failed, was killed, ...) — makes the next identical call launch again.
+   * c_gen_private: the value generators keep no state outside their own call.  When a generator
+     goes through process-wide state (a class attribute / module global that is prepared and then
+     read), a pre-emption between the two halves ([ESeed e k]: execution e has prepared the shared
+     generator for its next k-operation and is pre-empted before drawing) lets another execution of
+     the same process image overwrite it: the draw then returns what the generator was last
+     prepared for ([VStale w n]: a further draw of a generator already drawn from). *)
 From Coq Require Import List Arith Bool PeanoNat.
 Import ListNotations.
 
@@ -19,7 +31,9 @@ Record cfg := {
   c_scope : scope;          (* where the DeterministicExecutor (workflow identity + counters) lives *)
   c_seed_wf : bool;         (* seeds of random / uuid contain the workflow id *)
   c_task_key_call : bool;   (* execute_task record key contains the call identity *)
-  c_seq_offset : nat        (* generator sequence = recorded sequence + offset *)
+  c_seq_offset : nat;       (* generator sequence = recorded sequence + offset *)
+  c_replay_uncond : bool;   (* execute_task returns the recorded invocation unconditionally *)
+  c_gen_private : bool      (* the value generators keep no state outside their own call *)
 }.
 
 Inductive opk := Rnd | Tim | Uid.
@@ -28,7 +42,8 @@ Inductive op := ODet (k : opk) | OExec (c : nat).
 Inductive key := KOp (k : opk) (n : nat) | KCount (k : opk) | KBase | KTask (c : nat).
 Inductive value :=
   | VRand (w n : nat) | VUuid (w n : nat) | VTime (b n : nat)
-  | VBase (b : nat) | VInv (i : nat) | VCount (n : nat).
+  | VBase (b : nat) | VInv (i : nat) | VCount (n : nat)
+  | VStale (w n : nat).     (* a later draw of the shared generator state prepared for (w, n) *)
 
 Definition opk_eqb (a b : opk) : bool :=
   match a, b with Rnd, Rnd | Tim, Tim | Uid, Uid => true | _, _ => false end.
@@ -82,6 +97,14 @@ Record exe := { e_proc : nat; e_task : nat; e_wf : nat; e_x : executor }.
 
 Definition out := (nat * op * value)%type.          (* execution, operation, returned value *)
 
+(* side state of the two refutable facts (never read when c_replay_uncond and c_gen_private hold) *)
+Record side := {
+  rejected : list nat;                         (* launched invocations a guarded replay does not accept *)
+  gen_reg : list (nat * (value * bool));       (* process image -> shared generator: prepared for, not drawn yet *)
+  seeded : list nat                            (* executions pre-empted between preparing and drawing *)
+}.
+Definition side0 : side := {| rejected := []; gen_reg := []; seeded := [] |}.
+
 Record world := {
   store : list (skey * value);                 (* workflow data, newest binding first *)
   clock : nat;                                 (* number of clock readings so far *)
@@ -89,13 +112,18 @@ Record world := {
   caches : list ((nat * nat) * executor);      (* PerTaskObject: (process, task object) -> executor *)
   exes : list (nat * exe);
   launches : list (nat * nat * nat);           (* (workflow of the launching invocation, call, inv) *)
-  outs : list out                              (* chronological *)
+  outs : list out;                             (* chronological *)
+  aux : side
 }.
 
 Definition w0 : world :=
-  {| store := []; clock := 0; next_inv := 0; caches := []; exes := []; launches := []; outs := [] |}.
+  {| store := []; clock := 0; next_inv := 0; caches := []; exes := []; launches := []; outs := [];
+     aux := side0 |}.
 
-Inductive event := EBegin (e p t w : nat) | EOp (e : nat) (o : op).
+Inductive event :=
+  | EBegin (e p t w : nat) | EOp (e : nat) (o : op)
+  | EChild (w call : nat)          (* the invocation recorded for (w, call) ends in a state a guard rejects *)
+  | ESeed (e : nat) (k : opk).     (* e prepares the shared generator for its next k and is pre-empted *)
 
 Definition get_x (c : cfg) (W : world) (ex : exe) : executor :=
   match c_scope c with
@@ -119,7 +147,9 @@ Definition base_of (v : value) : nat := match v with VBase b => b | _ => 0 end.
 
 Definition seed_wf (c : cfg) (w : nat) : nat := if c_seed_wf c then w else 0.
 
-Definition det_op (c : cfg) (W : world) (x : executor) (k : opk) : eff :=
+(* [dr] is what the generated value goes through before it is recorded and returned: the identity
+   for a private generator, the shared generator register otherwise (see [draw]) *)
+Definition det_op_with (c : cfg) (W : world) (x : executor) (k : opk) (dr : value -> value) : eff :=
   let x' := bump k x in
   let n := cnt k x' in
   let xw := x_wf x in
@@ -128,7 +158,7 @@ Definition det_op (c : cfg) (W : world) (x : executor) (k : opk) : eff :=
                  f_launch := launches W; f_val := v; f_x := x' |}
   | None =>
       let g := n + c_seq_offset c in
-      let '(st1, clk1, v) :=
+      let '(st1, clk1, v0) :=
         match k with
         | Rnd => (store W, clock W, VRand (seed_wf c xw) g)
         | Uid => (store W, clock W, VUuid (seed_wf c xw) g)
@@ -138,6 +168,7 @@ Definition det_op (c : cfg) (W : world) (x : executor) (k : opk) : eff :=
             | None => (((xw, KBase), VBase (clock W)) :: store W, S (clock W), VTime (clock W) g)
             end
         end in
+      let v := dr v0 in
       let st2 := ((xw, KOp k n), v) :: st1 in
       let total := match slookup (xw, KCount k) st2 with Some (VCount t) => t | _ => 0 end in
       let st3 := ((xw, KCount k), VCount (Nat.max total n)) :: st2 in
@@ -145,17 +176,81 @@ Definition det_op (c : cfg) (W : world) (x : executor) (k : opk) : eff :=
          f_val := v; f_x := x' |}
   end.
 
+Definition det_op (c : cfg) (W : world) (x : executor) (k : opk) : eff :=
+  det_op_with c W x k (fun v => v).
+
+(* ---- shared generator state (only when c_gen_private is false) *)
+Definition stale (v : value) : value :=
+  match v with VRand w n | VUuid w n | VTime w n => VStale w n | _ => v end.
+
+Definition is_seeded (W : world) (e : nat) : bool := existsb (Nat.eqb e) (seeded (aux W)).
+
+(* what execution e (process image p) draws when its generator prepared v *)
+Definition draw (c : cfg) (W : world) (e p : nat) (v : value) : value :=
+  if c_gen_private c then v
+  else if is_seeded W e then
+    match nlookup p (gen_reg (aux W)) with
+    | Some (s, true) => s
+    | Some (s, false) => stale s
+    | None => v
+    end
+  else v.
+
+(* the value the generator of x's next k-operation prepares; None when the generator is not called
+   (the operation is recorded) or has no base time yet *)
+Definition own_gen (c : cfg) (W : world) (x : executor) (k : opk) : option value :=
+  let n := S (cnt k x) in
+  let xw := x_wf x in
+  match slookup (xw, KOp k n) (store W) with
+  | Some _ => None
+  | None =>
+      let g := n + c_seq_offset c in
+      match k with
+      | Rnd => Some (VRand (seed_wf c xw) g)
+      | Uid => Some (VUuid (seed_wf c xw) g)
+      | Tim => match slookup (xw, KBase) (store W) with
+               | Some bv => Some (VTime (base_of bv) g)
+               | None => None
+               end
+      end
+  end.
+
+Definition unseed (e : nat) (l : list nat) : list nat := filter (fun e' => negb (e' =? e)) l.
+
+Definition side_after_det (c : cfg) (W : world) (e p : nat) (x : executor) (k : opk) (v : value) : side :=
+  if c_gen_private c then aux W
+  else
+    let sd := aux W in
+    match slookup (x_wf x, KOp k (S (cnt k x))) (store W) with
+    | Some _ => {| rejected := rejected sd; gen_reg := gen_reg sd; seeded := unseed e (seeded sd) |}
+    | None =>
+        let s := if is_seeded W e
+                 then match nlookup p (gen_reg sd) with Some (s, _) => s | None => v end
+                 else v in
+        {| rejected := rejected sd; gen_reg := (p, (s, false)) :: gen_reg sd;
+           seeded := unseed e (seeded sd) |}
+    end.
+
 Definition task_key (c : cfg) (call : nat) : key := KTask (if c_task_key_call c then call else 0).
+
+(* does the replay branch of execute_task hand the recorded value back? *)
+Definition replay_accepts (c : cfg) (W : world) (v : value) : bool :=
+  c_replay_uncond c ||
+  negb (match v with VInv i => existsb (Nat.eqb i) (rejected (aux W)) | _ => false end).
 
 Definition exec_op (c : cfg) (W : world) (x : executor) (actual_wf call : nat) : eff :=
   let xw := x_wf x in
+  let i := next_inv W in
+  let launch :=
+    {| f_store := ((xw, task_key c call), VInv i) :: store W; f_clock := clock W;
+       f_next := S i; f_launch := (actual_wf, call, i) :: launches W; f_val := VInv i; f_x := x |} in
   match slookup (xw, task_key c call) (store W) with
-  | Some v => {| f_store := store W; f_clock := clock W; f_next := next_inv W;
-                 f_launch := launches W; f_val := v; f_x := x |}
-  | None =>
-      let i := next_inv W in
-      {| f_store := ((xw, task_key c call), VInv i) :: store W; f_clock := clock W;
-         f_next := S i; f_launch := (actual_wf, call, i) :: launches W; f_val := VInv i; f_x := x |}
+  | Some v =>
+      if replay_accepts c W v
+      then {| f_store := store W; f_clock := clock W; f_next := next_inv W;
+              f_launch := launches W; f_val := v; f_x := x |}
+      else launch
+  | None => launch
   end.
 
 Definition put_x (c : cfg) (W : world) (e : nat) (ex : exe) (x : executor)
@@ -165,6 +260,10 @@ Definition put_x (c : cfg) (W : world) (e : nat) (ex : exe) (x : executor)
   | PerTaskObject => (((e_proc ex, e_task ex), x) :: caches W, exes W)
   end.
 
+Definition set_aux (W : world) (sd : side) : world :=
+  {| store := store W; clock := clock W; next_inv := next_inv W; caches := caches W;
+     exes := exes W; launches := launches W; outs := outs W; aux := sd |}.
+
 Definition step (c : cfg) (W : world) (ev : event) : world :=
   match ev with
   | EBegin e p t w =>
@@ -173,7 +272,7 @@ Definition step (c : cfg) (W : world) (ev : event) : world :=
       | None =>
           {| store := store W; clock := clock W; next_inv := next_inv W; caches := caches W;
              exes := (e, {| e_proc := p; e_task := t; e_wf := w; e_x := new_x w |}) :: exes W;
-             launches := launches W; outs := outs W |}
+             launches := launches W; outs := outs W; aux := aux W |}
       end
   | EOp e o =>
       match nlookup e (exes W) with
@@ -181,13 +280,38 @@ Definition step (c : cfg) (W : world) (ev : event) : world :=
       | Some ex =>
           let x := get_x c W ex in
           let f := match o with
-                   | ODet k => det_op c W x k
+                   | ODet k => det_op_with c W x k (draw c W e (e_proc ex))
                    | OExec call => exec_op c W x (e_wf ex) call
                    end in
+          let sd := match o with
+                    | ODet k => side_after_det c W e (e_proc ex) x k (f_val f)
+                    | OExec _ => aux W
+                    end in
           let '(ca, es) := put_x c W e ex (f_x f) in
           {| store := f_store f; clock := f_clock f; next_inv := f_next f; caches := ca;
-             exes := es; launches := f_launch f; outs := outs W ++ [(e, o, f_val f)] |}
+             exes := es; launches := f_launch f; outs := outs W ++ [(e, o, f_val f)]; aux := sd |}
       end
+  | EChild w call =>
+      match slookup (w, task_key c call) (store W) with
+      | Some (VInv i) =>
+          set_aux W {| rejected := i :: rejected (aux W); gen_reg := gen_reg (aux W);
+                       seeded := seeded (aux W) |}
+      | _ => W
+      end
+  | ESeed e k =>
+      if c_gen_private c then W
+      else
+        match nlookup e (exes W) with
+        | None => W
+        | Some ex =>
+            match own_gen c W (get_x c W ex) k with
+            | None => W
+            | Some s =>
+                set_aux W {| rejected := rejected (aux W);
+                             gen_reg := (e_proc ex, (s, true)) :: gen_reg (aux W);
+                             seeded := e :: seeded (aux W) |}
+            end
+        end
   end.
 
 Definition run (c : cfg) (evs : list event) : world := fold_left (step c) evs w0.
@@ -212,6 +336,7 @@ Definition value_code (v : value) : list nat :=
   match v with
   | VRand w n => [0; w; n] | VUuid w n => [1; w; n] | VTime b n => [2; b; n]
   | VBase b => [3; b; 0] | VInv i => [4; i; 0] | VCount n => [5; n; 0]
+  | VStale w n => [6; w; n]
   end.
 Definition key_code (k : key) : list nat :=
   match k with
@@ -234,7 +359,16 @@ Definition render (W : world) : list (list (list nat)) :=
 
 Definition with_scope (c : cfg) (s : scope) : cfg :=
   {| c_scope := s; c_seed_wf := c_seed_wf c; c_task_key_call := c_task_key_call c;
-     c_seq_offset := c_seq_offset c |}.
+     c_seq_offset := c_seq_offset c; c_replay_uncond := c_replay_uncond c;
+     c_gen_private := c_gen_private c |}.
+
+(* the configuration with a guarded replay branch in execute_task / with a shared value generator *)
+Definition with_guarded_replay (c : cfg) : cfg :=
+  {| c_scope := c_scope c; c_seed_wf := c_seed_wf c; c_task_key_call := c_task_key_call c;
+     c_seq_offset := c_seq_offset c; c_replay_uncond := false; c_gen_private := c_gen_private c |}.
+Definition with_shared_generator (c : cfg) : cfg :=
+  {| c_scope := c_scope c; c_seed_wf := c_seed_wf c; c_task_key_call := c_task_key_call c;
+     c_seq_offset := c_seq_offset c; c_replay_uncond := c_replay_uncond c; c_gen_private := false |}.
 
 (* ---------------------------------------------------------------- the property, at full strength *)
 (* "the n-th deterministic random number, timestamp or UUID requested by a task is the same every
@@ -282,5 +416,5 @@ Definition owned (W : world) (w : nat) (v : value) : Prop :=
   | VRand w' _ | VUuid w' _ => w' = w
   | VTime b _ => slookup (w, KBase) (store W) = Some (VBase b)
   | VInv i => exists call, In (w, call, i) (launches W)
-  | VBase _ | VCount _ => False
+  | VBase _ | VCount _ | VStale _ _ => False
   end.
